@@ -311,11 +311,26 @@ src = """(ns c08.replay)
 (defn f0 [& more] [:f0 (first more) (second more)])
 (defn f2 [a b & more] [:f2 a b (first more)])
 (defn f2only [a b & more] [:f2only a b (nil? more)])
+(defn f4only [a b c d & more] [:f4only a b c d])
 (defn g ([a] [:g1 a]) ([a b] [:g2 a b]) ([a b & more] [:gv a b (vec more)]))
+;; (each step is its own top-level form, so that the order of effects does not depend on how call arguments are compiled)
+(def r1 (apply f0 (counted 0)))
+(def c1 (<= @realized 3))
+(reset! realized 0)
+(def r2 (apply f2 (counted 0)))
+(def c2 (<= @realized 3))
+(def r3 (apply f2 10 (counted 0)))
+(reset! realized 0)
+(apply f2only :x (counted 0))
+(def c3 (<= @realized 2))
+(reset! realized 0)
+(apply f4only :x :y (counted 0))
+(def c4 (<= @realized 3))
+(reset! realized 0)
+(apply (partial f4only :p) :x (counted 0))
+(def c5 (<= @realized 3))
 (println "RESULT"
-  (apply f0 (counted 0)) (<= @realized 6)
-  (do (reset! realized 0) (apply f2 (counted 0))) (<= @realized 6)
-  (apply f2 10 (counted 0))
+  r1 c1 r2 c2 r3 c3 c4 c5
   (apply f2 10 20 [30 40])
   (apply f2only [1 2])
   (apply f2only 1 [2])
@@ -330,7 +345,7 @@ finally:
     os.unlink(fh.name)
 line = [l for l in out.stdout.splitlines() if l.startswith("RESULT")]
 got = line[0] if line else "no output: " + out.stderr[-400:]
-want = "RESULT [:f0 0 1] true [:f2 0 1 2] true [:f2 10 0 1] [:f2 10 20 30] [:f2only 1 2 true] [:f2only 1 2 true] [:g1 1] [:g2 1 2] [:gv 1 2 [3 4]] [:gv 1 2 [3]] [:g2 1 2] [:gv 1 2 [3 4]] [1 2 3 4] [:f2 1 2 3]"
+want = "RESULT [:f0 0 1] true [:f2 0 1 2] true [:f2 10 0 1] true true true [:f2 10 20 30] [:f2only 1 2 true] [:f2only 1 2 true] [:g1 1] [:g2 1 2] [:gv 1 2 [3 4]] [:gv 1 2 [3]] [:g2 1 2] [:gv 1 2 [3 4]] [1 2 3 4] [:f2 1 2 3]"
 print("got     ", got)
 print("expected", want)
 print("REPRODUCED" if got != want else "not reproduced")
